@@ -200,8 +200,40 @@ fn check_image(
     let db = match guard(|| Db::<K>::open(cfg.options(img))) {
         Ok(Ok(db)) => db,
         Ok(Err(e)) => {
-            let m = format!("{e:#}");
-            rep.fail(prop, &format!("image-does-not-open:{}", msg_class(&m)), format!("{ctx}: Nomt::open failed: {m}"));
+            let mut m = format!("{e:#}");
+            m = format!("{m} [{}]", crate::sut::dir_summary(img));
+            if std::env::var("NV_KEEP_FAILED").is_ok() {
+                let keep = std::path::PathBuf::from(format!("/tmp/nv-failed-images/{}-{}", std::process::id(), rep.op_index));
+                let _ = std::fs::create_dir_all("/tmp/nv-failed-images");
+                let _ = shadow::copy_dir(img, &keep);
+                m = format!("{m} [kept at {}]", keep.display());
+            }
+            if m.to_lowercase().contains("lock") {
+                // diagnostics: who is still alive, and does the lock go away?
+                let mut names = Vec::new();
+                if let Ok(rd) = std::fs::read_dir("/proc/self/task") {
+                    for t in rd.flatten() {
+                        names.push(std::fs::read_to_string(t.path().join("comm")).unwrap_or_default().trim().to_string());
+                    }
+                }
+                names.sort();
+                if std::env::var("NV_KEEP_FAILED").is_ok() {
+                    let out = format!("/tmp/nv-failed-images/gdb-{}-{}.txt", std::process::id(), rep.op_index);
+                    let _ = std::process::Command::new("gdb")
+                        .args(["-p", &std::process::id().to_string(), "-batch", "-ex", "thread apply all bt 14"])
+                        .stdout(std::fs::File::create(&out).unwrap())
+                        .stderr(std::process::Stdio::null())
+                        .status();
+                }
+                std::thread::sleep(std::time::Duration::from_millis(500));
+                let retry = match guard(|| Db::<K>::open(cfg.options(img))) {
+                    Ok(Ok(_)) => "ok".to_string(),
+                    Ok(Err(e)) => format!("still failing: {e:#}"),
+                    Err(p) => format!("panic: {p}"),
+                };
+                m = format!("{m} [threads alive: {names:?}; retry after 500 ms: {retry}]");
+            }
+            rep.fail(prop, &format!("image-does-not-open:{}", msg_class(&m).chars().take(80).collect::<String>()), format!("{ctx}: Nomt::open failed: {m}"));
             return;
         }
         Err(p) => {
@@ -1154,7 +1186,8 @@ fn injections(rep: &mut Rep, rng: &mut Rng, p: &EioParams, cfg: &Cfg, r: &Record
             continue;
         }
         let (site_name, kind, file) = site.unwrap();
-        let ctx = format!("{ctx0}: EIO injected at mutating event {k}/{n_mut} = {kind:?} {file} [{site_name}] persistent={persistent}");
+        let dbg1 = if std::env::var("NV_KEEP_FAILED").is_ok() { crate::sut::dir_summary(&work) } else { String::new() };
+        let ctx = format!("{ctx0}: EIO injected at mutating event {k}/{n_mut} = {kind:?} {file} [{site_name}] persistent={persistent} res={res:?} AFTER-OP[{dbg1}]");
         rep.eval_keyed("C14", k > 0, derive(rep.case_seed, &[rep.op_index, k, persistent as u64]));
         rep.feat(&format!("injected_at:{site_name}"), 1);
         let db = sut.db.as_ref().unwrap();
@@ -1192,7 +1225,10 @@ fn injections(rep: &mut Rep, rng: &mut Rng, p: &EioParams, cfg: &Cfg, r: &Record
                 }
             }
         }
+        let dbg2 = if std::env::var("NV_KEEP_FAILED").is_ok() { crate::sut::dir_summary(&work) } else { String::new() };
         sut.db = None;
+        let dbg3 = if std::env::var("NV_KEEP_FAILED").is_ok() { crate::sut::dir_summary(&work) } else { String::new() };
+        let ctx = format!("{ctx} BEFORE-DROP[{dbg2}] AFTER-DROP[{dbg3}]");
         if rep.diverged {
             return;
         }
